@@ -294,7 +294,7 @@ def gen_cases(tier, seed):
             cases.append({"kind": "enum", "action": action, "stride": 2 if tier == "quick" else 1,
                           "plan": {"scripts": [name], "seed": seed, "slow_close": 2.0, "server_kwargs": {"path_timeout": 0.2}}})
     # slow reply writer (server-wide write limit): replies are still queued behind the throttle when the session ends
-    for name in (["login_quit", "walk"] if tier == "quick" else ["login_quit", "walk", "stor_pasv", "mkd_rmd", "rename", "pipelined"]):
+    for name in (["login_quit", "walk", "stor_pasv", "pipelined"] if tier == "quick" else ["login_quit", "walk", "stor_pasv", "retr_pasv", "mkd_rmd", "rename", "pipelined"]):
         for action in ("rst", "fin", "server-close"):
             cases.append({"kind": "enum", "action": action,
                           "plan": {"scripts": [name], "seed": seed, "server_kwargs": {"write_speed_limit": 150}}})
